@@ -30,6 +30,7 @@ Basic_Player::Basic_Player(Song& song, Track& track)
 	, stack_depth()
 	, max_stack_depth(10)
 	, loop_begin_depth(0)
+	, last_loop_jump_time(-1)
 {
 }
 
@@ -150,10 +151,12 @@ void Basic_Player::step_event()
 			}
 			else
 			{
-				if(loop_position != -1 && play_time != loop_play_time && loop_hook())
+				// no jump if no time has passed since the last one: the next pass would be the same
+				if(loop_position != -1 && play_time != loop_play_time && play_time != last_loop_jump_time && loop_hook())
 				{
 					position = loop_position;
 					loop_count++;
+					last_loop_jump_time = play_time;
 				}
 				else
 				{
